@@ -43,6 +43,7 @@ SCENARIOS = {
     'unknown_action': dict(callers=[('read', 'm:p1'), ('foo', 'm:p1')]),
     'four_mixed': dict(callers=[('read', 'm:p1'), ('read', 'm:p1'), ('change', 'm:p1'), ('read', 'm:p2')], updates=2),
     'four_drop': dict(callers=[('read', 'm:p1'), ('read', 'm:p1'), ('read', 'm:p2'), ('bar', 'm:p2')], drop=True),
+    'late_callers_drop': dict(callers=[('read', 'm:p1'), ('read', 'm:p2'), ('read', 'm:p1')], drop=True, anytime=True),
     'user_stream': dict(callers=[('read', 'm:p1'), ('read', 'm:p1')], user=True, streaming=True),
 }
 T0 = 1000000.0
